@@ -346,6 +346,10 @@ class Client:
     def on_store(self, interp: "Interp", key: Value, val: Value, node: ast.AST, st: State) -> State:
         return st
 
+    def on_local(self, interp: "Interp", name: str, val: Value, node: ast.AST, st: State) -> State:
+        """a local variable of the analysed function is (re)bound"""
+        return st
+
     def on_delete(self, interp: "Interp", key: Value, node: ast.AST, st: State) -> State:
         return st
 
@@ -515,6 +519,7 @@ class Interp:
     def assign(self, tgt: ast.expr, v: Value, st: State, out: Outcome, node: ast.AST) -> List[State]:
         if isinstance(tgt, ast.Name):
             key = self._name_key(tgt.id)
+            st = self.client.on_local(self, tgt.id, v, node, st)
             return [st.set(key, v)]
         if isinstance(tgt, (ast.Tuple, ast.List)):
             cur = [st]
